@@ -57,10 +57,20 @@ def extra_ubs(st, t):
     return out
 
 
+def in_chain(fr, *suffixes):
+    """Is the current frame, or a caller of it, one of the named functions?  (Lemmas and documented panics belong to a
+    public operation, wherever its code lives: in its own body or in a private helper it delegates to.)"""
+    f = fr
+    while f is not None:
+        if f.fn is not None and any(f.fn["path"].endswith(s) for s in suffixes):
+            return True
+        f = f.parent
+    return False
+
+
 def trusted_sub(I, st, fr, a, b):
     """COUNT-TRUSTED: `count - remove_count` in the deletion routines."""
-    fn = fr.fn["path"] if fr and fr.fn else ""
-    if fn.endswith("::delete_edges") or fn.endswith("::delete_nodes_witness"):
+    if in_chain(fr, "::delete_edges", "::delete_nodes_witness"):
         at = list(b.atoms())
         if len(at) == 1 and isinstance(at[0], tuple) and at[0][0] == "loopvar" and at[0][1][-1] == "remove_count" \
                 and b == Poly.atom(at[0]):
@@ -69,13 +79,24 @@ def trusted_sub(I, st, fr, a, b):
     return None
 
 
+def _kahn_var(t, name):
+    if isinstance(t, tuple) and len(t) == 2 and t[0] == "v" and isinstance(t[1], tuple) and len(t[1]) >= 2 and t[1][0] == "loopvar":
+        nm = t[1][1]
+        return isinstance(nm, tuple) and nm[0].endswith("strict::graph::kahn") and nm[-1] == name
+    return False
+
+
 def trusted_bound(st, t, B):
     """LAYER-TRUSTED: the layer numbers written by kahn are < number of nodes."""
-    if t[0] == "v" and isinstance(t[1], tuple) and len(t[1]) >= 2 and t[1][0] == "loopvar":
-        nm = t[1][1]
-        if isinstance(nm, tuple) and nm[0].endswith("strict::graph::kahn") and nm[-1] == "order":
-            if st.ge(B, t_len(t)):
-                return "LAYER-TRUSTED"
+    if _kahn_var(t, "order"):
+        if st.ge(B, t_len(t)):
+            return "LAYER-TRUSTED"
+    # the same array after one more step of the loop (order[frontier := depth]), e.g. when the loop exits after its body
+    if t[0] == "sac" and _kahn_var(t[1], "order") and _kahn_var(t[2], "frontier"):
+        d = as_poly(t[3]).atoms()
+        if len(d) == 1 and isinstance(next(iter(d)), tuple) and next(iter(d))[0] == "loopvar" and next(iter(d))[1][-1] == "depth" \
+                and st.ge(B, t_len(t[1])):
+            return "LAYER-TRUSTED"
     return None
 
 
@@ -126,8 +147,7 @@ def prove_elem_le(I, st, small, big):
 
 def prove_scatter_sub(I, st, fr, x, ixs, rhs):
     if ixs[0] == "spkeys" and rhs[0] == "spcounts" and ixs[1] == rhs[1]:
-        fn = fr.fn["path"] if fr and fr.fn else ""
-        if fn.endswith("graph::kahn"):
+        if in_chain(fr, "graph::kahn"):
             I.lemma_uses["KAHN-TRUSTED"] = I.lemma_uses.get("KAHN-TRUSTED", 0) + 1
             return "KAHN-TRUSTED"
     return None
